@@ -13,18 +13,24 @@ from ..vlib import core, tlc
 RULE = ("part 1: arrival sequences emitted by the exhaustive TLC runs of TcpSinkMC (every sequence within the bounds) plus "
         "seeded random longer ones, each fed to the real TCPSink; part 2: every drop pattern of at most 2 data and 2 ACK "
         "transmissions among the first 8 (the patterns emitted by TcpLoopMC are a subset) and seeded random larger ones, "
-        "each run on a real sender/wire/sink/wire loop with Reno and CUBIC over several delay / initial-RTT classes. "
+        "each run on a real sender/wire/sink/wire loop with Reno and CUBIC over several delay / initial-RTT classes "
+        "(one-way delays from 0 and a few microseconds up to 1, initial RTT estimates 1/16 .. 4), plus longer flows (12-32 "
+        "segments, more in the thorough tier) with an early data loss so that fast retransmit and congestion avoidance are "
+        "reached. "
         "A scenario is non-trivial when it contains (sink) a reordered arrival, a duplicate, a gap, a missing first "
         "segment, an overlap; (loop) a dropped data packet, a dropped ACK, a timer retransmission, a fast retransmission, "
         "a duplicate ACK at the sender, a duplicate ACK with nothing outstanding, a cumulative ACK that advances by more "
-        "than one segment, a spurious timeout (retransmission although nothing was lost), or is of the loss-free RTT < RTO "
-        "class; distinct = distinct scenarios")
+        "than one segment, a spurious timeout (retransmission although nothing was lost), a zero or microsecond path delay, "
+        "a long flow that continues after a fast retransmit, or is of the loss-free RTT < RTO class; "
+        "distinct = distinct scenarios")
 
 WORKERS = int(os.environ.get("VERIF_TLC_WORKERS", "16") or 16)
 LOOP_ACTS = ("EnvSend", "EnvTimer", "EnvRecv", "EnvAck", "EnvAckFrx")
 SINK_ACTS = ("EnvArrive", "DoAck")
 LAT = [[1, 8], [1, 4], [3, 8], [1, 2], [1, 1]]
 RTT0 = [[1, 16], [1, 8], [1, 4], [1, 2], [1, 1], [2, 1], [4, 1]]
+# zero and microsecond one-way delays (hosts on one switch): 0, 2^-17 s (7.6 us), 10 us, 2^-14 s (61 us)
+TINY = [[0, 1], [0, 1], [1, 131072], [1, 100000], [1, 16384]]
 
 
 def sub(text, **kv):
@@ -63,8 +69,14 @@ def random_arrivals(ctx):
 
 
 def timing(ctx, kind=None):
-    """(fwd, rev, rtt0): 'slow' = the initial RTO 2*rtt0 is above the round-trip time, 'fast' = it is not"""
+    """(fwd, rev, rtt0): 'slow' = the initial RTO 2*rtt0 is above the round-trip time, 'fast' = it is not,
+    'tiny' = one-way delays of 0 or a few microseconds"""
     rng = ctx.rng
+    if kind == "tiny":      # both directions (almost) instantaneous, or one of them and an ordinary one now and then
+        f, r = rng.choice(TINY), rng.choice(TINY)
+        if rng.random() < 0.15:
+            f, r = rng.choice([(f, rng.choice(LAT)), (rng.choice(LAT), r)])
+        return f, r, rng.choice(RTT0)
     for _ in range(100):
         f, r, t0 = rng.choice(LAT), rng.choice(LAT), rng.choice(RTT0)
         rtt = f[0] / f[1] + r[0] / r[1]
@@ -115,13 +127,19 @@ def classify_sink(sc):
     return kinds
 
 
-def classify_loop(tr):
+def classify_loop(tr, sc=None):
     kinds = set()
     ev = tr["ev"]
     cfg = tr["cfg"]
     mss = cfg["mss"] or 1
     if cfg["timely"]:
         kinds.add("loop_lossfree_rtt_below_rto")
+    if sc is not None:
+        tiny = [d for d in (sc["fwd"], sc["rev"]) if d[0] * 1000 < d[1]]
+        if tiny:
+            kinds.add("loop_zero_delay" if any(d[0] == 0 for d in tiny) else "loop_microsecond_delay")
+        if sc["n"] >= 12 and any(e["e"] == "T" and e["ctx"] == 1 for e in ev):
+            kinds.add("loop_long_flow_after_fast_retransmit_" + sc["cc"])
     la = 0
     for e in ev:
         if e["e"] == "T":
@@ -235,11 +253,11 @@ def build(ctx, arrs, pats):
     for dd, ad in patterns(8, 2, 2):
         if q:
             for cc in ("reno", "cubic"):
-                scs.append(loop_scenario(ctx, rng.choice([2, 3, 4]), dd, ad, cc))
+                scs.append(loop_scenario(ctx, rng.choice([2, 3, 4]), dd, ad, cc, rng.choice([None, None, None, "tiny"])))
         else:
             for cc in ("reno", "cubic"):
                 for n in (2, 3, 4, 6):
-                    for kind in ("slow", "fast"):
+                    for kind in ("slow", "fast", "tiny"):
                         scs.append(loop_scenario(ctx, n, dd, ad, cc, kind))
     rng.shuffle(pats)
     for w in pats[:500 if q else len(pats)]:
@@ -247,10 +265,24 @@ def build(ctx, arrs, pats):
     # larger random patterns and flows
     for _ in range(500 if q else 20000):
         dd, ad = random_pattern(ctx, 12 if q else 16, 3, 3)
-        scs.append(loop_scenario(ctx, rng.randint(1, 10), dd, ad))
+        scs.append(loop_scenario(ctx, rng.randint(1, 10), dd, ad, kind=rng.choice([None, None, None, "tiny"])))
     # the loss-free class, RTT below and not below the RTO
     for _ in range(150 if q else 3000):
-        scs.append(loop_scenario(ctx, rng.randint(1, 12), [], [], kind=rng.choice(["slow", "slow", "fast"])))
+        scs.append(loop_scenario(ctx, rng.randint(1, 12), [], [], kind=rng.choice(["slow", "slow", "fast", "tiny"])))
+    # longer flows with an early data loss while at least four segments are in flight: the loss is repaired by fast
+    # retransmit and the sender goes on in congestion avoidance (cwnd above ssthresh) -- Reno and CUBIC alike, mostly
+    # over paths with zero / microsecond delays, sometimes with a second loss or a lost ACK later on
+    for i in range(200 if q else 3000):
+        n = rng.randint(12, 32 if q else 48)
+        dd = [rng.randint(4, 12)]
+        if rng.random() < 0.3:
+            dd.append(rng.randint(13, 24))
+        ad = [rng.randint(3, 30)] if rng.random() < 0.2 else []
+        scs.append(loop_scenario(ctx, n, dd, ad, ("reno", "cubic")[i % 2], "tiny" if i % 4 else None))
+    # long loss-free flows
+    for i in range(20 if q else 400):
+        scs.append(loop_scenario(ctx, rng.randint(16, 40 if q else 96), [], [], ("reno", "cubic")[i % 2],
+                                 rng.choice(["slow", "tiny"])))
     return scs
 
 
@@ -268,7 +300,9 @@ def run(ctx, replay=None):
             continue
         res = ctx.drive(drv, [scs[i] for i in idx], procs=12)
         flat = [{"cfg": r.get("cfg", {}), "ev": r["ev"]} for r in res]
-        stuck = ctx.validate(mod, mod + ".cfg", "tcp", flat, shard=400)
+        # shards of about 60 000 events (400 ordinary traces; fewer when a broken sender produces traces up to the cap)
+        avg = max(1, sum(len(t["ev"]) for t in flat) // len(flat))
+        stuck = ctx.validate(mod, mod + ".cfg", "tcp", flat, shard=max(25, min(400, 60000 // avg)), workers=12)
         for j, i in enumerate(idx):
             results[i] = (res[j], stuck.get(j))
     distinct = set()
@@ -284,7 +318,7 @@ def run(ctx, replay=None):
             ctx.violation(part + "_trace", sc, res, "%s trace rejected at event %d: %s" % (part, pos, json.dumps(short)),
                           sig=sig_of(part, at, res))
             continue
-        kinds = classify_sink(sc) if part == "sink" else classify_loop(res)
+        kinds = classify_sink(sc) if part == "sink" else classify_loop(res, sc)
         for k in kinds:
             ctx.count(k)
         if i % 1999 == 0 or (part == "loop" and "loop_fast_retransmission" in kinds and len(ctx.samples) < 3):
